@@ -514,4 +514,33 @@ Theorem T02k_unconventional_unguarded_refuted :
 Proof. exact unconventional_unguarded_refuted. Qed.
 Print Assumptions T02k_unconventional_unguarded_refuted.
 
+
+(* T02k.7  fixes.remove_duplicate_functions / abstractions.hash_node (after repairs 3c7e4a0, 2fc54c7, cd4b981):
+   two functions with the same numbering have the same node types and plain fields at every position of
+   the walk, the same preserved (free) names at the same positions, and their remaining names follow the
+   same pattern (two occurrences in f are one name iff the occurrences at the same positions in g are):
+   g is f with its bound names renamed one-to-one.  Identity, __name__, default values evaluated once and
+   keyword calls are findings F02cls-2, F02-33, F02-34. *)
+Theorem T02k_duplicate_alpha :
+  forall keep1 keep2 l1 l2,
+  canon_go keep1 [] l1 = canon_go keep2 [] l2 ->
+  length l1 = length l2 /\
+  (forall i k, nth_error l1 i = Some (TK k) -> nth_error l2 i = Some (TK k)) /\
+  (forall i x b, nth_error l1 i = Some (TN x b) -> nmem x keep1 = true ->
+                 exists b', nth_error l2 i = Some (TN x b') /\ nmem x keep2 = true) /\
+  (forall i j x b x' b', nth_error l1 i = Some (TN x b) -> nth_error l1 j = Some (TN x' b') ->
+      nmem x keep1 = false -> nmem x' keep1 = false ->
+      exists y c y' c', nth_error l2 i = Some (TN y c) /\ nth_error l2 j = Some (TN y' c') /\
+                        nmem y keep2 = false /\ nmem y' keep2 = false /\ (x = x' <-> y = y')).
+Proof. exact duplicate_alpha. Qed.
+Print Assumptions T02k_duplicate_alpha.
+
+(* the code before repair 3c7e4a0 numbered the free names as well: `len(x)` and `sum(x)` were "equal" *)
+Theorem T02k_duplicate_old_refuted :
+  exists f g, dup_eqb_old [] f g = true /\ dup_eqb [] f g = false /\
+              exists i x y, nth_error f i = Some (TN x false) /\ nth_error g i = Some (TN y false) /\ x <> y
+                            /\ nmem x (bound_names f) = false /\ nmem y (bound_names g) = false.
+Proof. exact duplicate_old_refuted. Qed.
+Print Assumptions T02k_duplicate_old_refuted.
+
 End Cls.
